@@ -36,6 +36,7 @@ type PropSpec struct {
 	ThoroughSec int
 	LevelText   string
 	LevelNote   string
+	Lemmas      []string // rewrite lemmas the harness terms rely on; discharged by cvc5 in every run
 }
 
 type knownFinding struct {
@@ -140,6 +141,19 @@ func cmdCheck(args []string) int {
 	buildDone := make(chan error, 1)
 	go func() { buildDone <- rp.build() }()
 
+	lemmaDone := make(chan []lemmaResult, 1)
+	go func() {
+		var out []lemmaResult
+		ch := make(chan lemmaResult, len(spec.Lemmas))
+		for _, l := range spec.Lemmas {
+			go func(l string) { ch <- runLemma(l, 180) }(l)
+		}
+		for range spec.Lemmas {
+			out = append(out, <-ch)
+		}
+		lemmaDone <- out
+	}()
+
 	unknownKeys := map[string]int{}
 	res := explore(hs, nWorkers(), deadline, func(c interp.Candidate) bool {
 		k := candKey(c)
@@ -202,6 +216,13 @@ func cmdCheck(args []string) int {
 			"t1_queries": t.Stats.T1Queries, "t2_queries": t.Stats.T2Queries, "candidates": t.Stats.Candidates,
 			"ei_domain": t.Spec.Opts.EI,
 		})
+	}
+
+	lemmaResults := <-lemmaDone
+	for _, lr := range lemmaResults {
+		if lr.Verdict != "unsat" {
+			inconclusive = append(inconclusive, fmt.Sprintf("rewrite lemma %s not discharged (%s)", lr.Name, lr.Verdict))
+		}
 	}
 
 	// ---- candidates: known findings, native replay ----
@@ -380,6 +401,7 @@ func cmdCheck(args []string) int {
 			"paths_aborted_by_assumption": total.Aborted,
 			"covers":             covers,
 			"known_findings_hit": knownHit,
+			"rewrite_lemmas":     lemmaResults,
 			"inconclusive":       inconclusive,
 			"workers":            nWorkers(),
 			"explanation":        "bounded symbolic execution of the real SSA of /repo (regenerated on this run); every assertion on every feasible path is discharged by an SMT solver for all values of the symbolic inputs within the stated bounds",
